@@ -109,6 +109,8 @@ pub struct ObjRec {
     pub shown: Option<(Option<Instant>, usize)>,
     pub destroyed_in: Option<OpKind>,
     pub in_flight: bool,
+    /// Object::drop for it is in progress (it may or may not be in the queue yet).
+    pub returning: bool,
 }
 
 #[derive(Clone, Debug, PartialEq, Eq, Hash)]
@@ -526,6 +528,7 @@ impl World {
             shown: None,
             destroyed_in: None,
             in_flight: true,
+            returning: false,
         });
         self.check_c01("object constructed");
         id
@@ -1029,12 +1032,14 @@ pub fn op_release(who: usize) -> bool {
     let (closed_before, surplus_before) = w(|w| {
         w.begin_op(who, OpKind::Release);
         w.objs[id].loc = Loc::Pool;
+        w.objs[id].returning = true;
         (w.close_returned, false)
     });
     let _ = surplus_before;
     drop(o);
     w(|w| {
         w.objs[id].in_flight = false;
+        w.objs[id].returning = false;
         // kept = still alive AND still the pool's (a concurrent retain() may
         // have handed it to its caller in the meantime)
         let alive = w.objs[id].alive && w.objs[id].loc == Loc::Pool;
@@ -1089,8 +1094,18 @@ pub fn op_retain(who: usize, pool: &Pool<Mgr>) {
         w.in_retain = true;
     });
     let mut visited: Vec<(usize, bool)> = Vec::new();
+    // Objects that are certainly in the idle queue while retain() holds the
+    // lock: determined at the first predicate call (which happens under the
+    // lock) - pool-owned, not in the hands of a get(), and not in the middle of
+    // being returned.
+    let certainly_idle = |w: &World| -> Vec<usize> { w.objs.iter().enumerate().filter(|(_, o)| o.alive && o.loc == Loc::Pool && !o.in_flight && !o.returning).map(|(i, _)| i).collect() };
+    let idle_at_start: Vec<usize> = w(|w| certainly_idle(w));
+    let mut must_visit: Option<Vec<usize>> = None;
     let r = pool.retain(|o: &Obj, m: Metrics| {
         let id = o.id;
+        if must_visit.is_none() {
+            must_visit = Some(w(|w| certainly_idle(w)));
+        }
         let keep = choose_free(2) == 0;
         trace!("    predicate(object {}) -> {}", id, keep);
         w(|w| {
@@ -1125,6 +1140,21 @@ pub fn op_retain(who: usize, pool: &Pool<Mgr>) {
         }
         if r.retained != exp_retained {
             w.violate(&["C09"], "retain-count", format!("retain() reports {} retained, predicate kept {}", r.retained, exp_retained));
+        }
+        // every object that certainly sat in the queue while retain() held the
+        // lock must have been offered to the predicate
+        let required: Vec<usize> = match &must_visit {
+            Some(v) => v.clone(),
+            // the predicate was never called: require what was idle before the
+            // call and is still untouched after it
+            None => {
+                let now = certainly_idle(w);
+                idle_at_start.iter().copied().filter(|i| now.contains(i) && w.objs[*i].handouts == w.objs[*i].handouts).collect()
+            }
+        };
+        let missed: Vec<usize> = required.iter().copied().filter(|i| !visited.iter().any(|v| v.0 == *i)).collect();
+        if !missed.is_empty() && !w.close_begun && (w.resizes_begun == w.resize_epoch) {
+            w.violate(&["C09"], "retain-missed-idle-object", format!("retain() did not offer idle objects {:?} to the predicate (offered {:?})", missed, visited.iter().map(|v| v.0).collect::<Vec<_>>()));
         }
         if w.cfg.exact_order {
             // the set matters (C09), not the order in which retain walks it
